@@ -85,6 +85,8 @@ pub enum Class {
     Maint,
     Snap,
     Reopen,
+    /// drop_range / clear / fifo: budgeted separately so that large argument domains stay tractable
+    Special,
 }
 
 impl Op {
@@ -98,6 +100,7 @@ impl Op {
             | Op::MultiDel { .. }
             | Op::Ingest { .. } => Class::Data,
             Op::Snap | Op::Unsnap => Class::Snap,
+            Op::DropRange { .. } | Op::Clear | Op::Fifo { .. } => Class::Special,
             Op::Reopen => Class::Reopen,
             _ => Class::Maint,
         }
